@@ -164,6 +164,11 @@ def run_unit(unit, repo, seed=0, rlimit=None, timeout=900, extra_args=(), canary
         res['wall_s'] = time.time() - t0
         return res
     gen_text = open(out_rs, encoding='utf-8').read()
+    if rlimit and rlimit >= 100 and 'verifier::rlimit(' in gen_text:
+        # a per-function budget in the template overrides the command line: scale it for the big-budget retry
+        # (same line count, so diagnostics keep pointing at the right lines)
+        gen_text = re.sub(r'verifier::rlimit\((\d+)\)', lambda m: 'verifier::rlimit(%d)' % (int(m.group(1)) * 5), gen_text)
+        open(out_rs, 'w', encoding='utf-8').write(gen_text)
     gen_lines = gen_text.split('\n')
     res['rewrites'] = meta['rewrites']
     res['items'] = meta['items']
@@ -231,6 +236,8 @@ def run_unit(unit, repo, seed=0, rlimit=None, timeout=900, extra_args=(), canary
                 kind, known = k, True
                 break
         if not known:
+            if 'Resource limit' in msg or 'rlimit' in msg:
+                continue        # classified below
             hard_errors.append(msg + ' @ ' + (', '.join('%s:%d' % l for l in b['locs'][:1])))
             continue
         if kind is None:
@@ -263,9 +270,13 @@ def run_unit(unit, repo, seed=0, rlimit=None, timeout=900, extra_args=(), canary
         res['reason'] = 'VIR error: ' + p.stderr[-1500:]
         return res
     rl = [b for b in blocks if 'Resource limit' in b['head'] or 'rlimit' in b['head']]
-    if rl:
+    any_vc = any(d['failures'] for d in fns.values())
+    if rl and not any_vc:
+        # the solver gave up without refuting anything: no answer
         res['reason'] = 'resource limit (rlimit) exceeded: ' + rl[0]['head']
         return res
+    # (with --multiple-errors Verus goes on after a failed condition and may then run out of budget looking for
+    # further ones: the conditions it did report as failed stand, and are re-tried by the caller under other seeds)
     any_fail = any(d['status'] == 'fail' for d in fns.values()) or bool(res.get('unit_failures'))
     if not any_fail and not vr.get('success'):
         res['reason'] = 'verus reported failure without a classifiable diagnostic: ' + p.stderr[-1500:]
